@@ -27,7 +27,7 @@ CLAIMED = {
    technique="deterministic simulation: seeded scheduler over hash-iteration orders + fresh-process replays, digest equality"),
  "C01": dict(level="fault_enumeration", ref="DESIGN §5 C01",
    text="Prover, transport and both verifiers run in one process: an honest uni-STARK or batch-STARK proof is serialized to a tree, every numeric leaf and every public value is corrupted one fault at a time (five fault kinds), and the native verifier and the in-circuit verifier (fixed circuit for value leaves, circuit rebuilt from the received proof for usize leaves) must agree, over a swarm of proof shapes and FRI parameter sets.",
-   note="Native p3 verifiers are the oracle. Panics count as reject here (they are C15's observable). Universes: U-KB4/U-BB4 with TwoAdicFriPcs (six runs in eight), KoalaBear with HidingFriPcs over the plain MMCS and over the salted MerkleTreeHidingMmcs (one run in eight each); arity-2 MMCS.",
+   note="Native p3 verifiers are the oracle. Panics count as reject here (they are C15's observable). Universes (per twelve runs): U-KB4 / U-BB4 with TwoAdicFriPcs (3 + 3), KoalaBear with HidingFriPcs over the plain MMCS and over the salted MerkleTreeHidingMmcs (1 + 1), custom-AIR batches proven with raw p3_batch_stark (2), Goldilocks degree-2 (2); arity-2 MMCS.",
    technique="deterministic simulation with message-fault enumeration between prover and two verifier nodes"),
  "C04": dict(level="fault_enumeration", ref="DESIGN §5 C04",
    text="Byzantine prover at matrix depth through hook H2: after an honest run every cell of every active row (and one padding row) of every primitive table is altered, or an operand is altered and the row re-solved locally, or rows are swapped, or a constant is substituted and propagated; the real prover commits and proves the forged matrices and the commitment-binding verifier decides. Ground truth (operation relations over the extension field, constants, agreement of all bus participants) is computed per case; accepted and invalid is a violation. Fault-free control arm first.",
@@ -55,7 +55,7 @@ CLAIMED = {
    technique="deterministic simulation with metadata-fault enumeration and serialization transport"),
  "C17": dict(level="exploration", ref="DESIGN §5 C17",
    text="History-dependent durable state: call histories over a growing pool of proofs and cache slots (NEXT / AGG with cache None, Build, Reuse), every output verified natively and fed to later steps; the reference model is the uncached twin of each call; stale-state faults offer a cache prepared for another circuit, including a near-miss pair with identical size counters; a stale offer must be refused or recomputed (never panic, never an unverifiable proof, never silently the other circuit's verifying data) and later steps must still succeed.",
-   note="KoalaBear D=4 with the real FriRecursionBackend; FriRecursionConfig wrapper copied from the repository's examples. Known findings (stale caches) in known_findings.json.",
+   note="KoalaBear D=4 and Goldilocks D=2 (one history in four) with the real FriRecursionBackend for the respective extension degree; FriRecursionConfig wrapper copied from the repository's examples. Known findings (stale caches) in known_findings.json.",
    technique="deterministic simulation: seeded call histories with stale-state faults against an uncached reference twin"),
  "C19": dict(level="fault_enumeration", ref="DESIGN §5 C19",
    text="Input-fault plans (withheld, short, long, duplicated, conflicting inputs and private data) on circuits whose inputs are consumed by ALU ops, hints, the recompose table, Poseidon2 permutations and Merkle checks, executed by two builds of the same harness that differ only in debug-assertions, each in a crash-isolated worker; outcome streams (ok + trace digest, error class, panic, abort) must be identical and faults that must fail must not report success.",
